@@ -269,6 +269,41 @@ func runJailProbeJob(j *Job, res *JobResult) {
 			os.Remove(top + "/esc")
 		}
 	}()
+	// ---- busyfile: the destination holds a bind-mounted regular file at an entry's path (a container's /etc/hosts):
+	//      the plain extraction either fails, or the file holds exactly the entry's bytes afterwards
+	func() {
+		const top = "/w/.busy"
+		_ = os.MkdirAll(top+"/dest", 0o755)
+		old := bytes.Repeat([]byte("old-content-of-the-mounted-file\n"), 10)
+		_ = os.WriteFile(top+"/mounted", old, 0o644)
+		_ = os.WriteFile(top+"/dest/hosts", nil, 0o644)
+		if err := unix.Mount(top+"/mounted", top+"/dest/hosts", "", unix.MS_BIND, ""); err != nil {
+			skip("busyfile", err)
+			return
+		}
+		defer unix.Unmount(top+"/dest/hosts", unix.MNT_DETACH)
+		out.Ran = append(out.Ran, "busyfile")
+		fresh := []byte("127.0.0.1 localhost\n")
+		for _, call := range []string{"untar", "layer"} {
+			var buf bytes.Buffer
+			tw := tar.NewWriter(&buf)
+			_ = tw.WriteHeader(&tar.Header{Name: "hosts", Typeflag: tar.TypeReg, Mode: 0o644, Size: int64(len(fresh))})
+			_, _ = tw.Write(fresh)
+			_ = tw.Close()
+			var err error
+			if call == "untar" {
+				err = archive.Untar(bytes.NewReader(buf.Bytes()), top+"/dest", nil)
+			} else {
+				_, err = archive.ApplyUncompressedLayer(top+"/dest", bytes.NewReader(buf.Bytes()), nil)
+			}
+			got, _ := os.ReadFile(top + "/dest/hosts")
+			if err == nil && !bytes.Equal(got, fresh) {
+				prob("C20 busy file: plain %s of a %d-byte file \"hosts\" over a bind-mounted file of %d bytes reported success, and the file now holds %d bytes (%q…): the entry is not what the path holds", call, len(fresh), len(old), len(got), string(got[:min(len(got), 40)]))
+				break
+			}
+			_ = os.WriteFile(top+"/mounted", old, 0o644)
+		}
+	}()
 	// ---- nilopts: calls with nil options are independent of each other (nothing a call writes into "its"
 	//      options may be visible to the next call)
 	func() {
@@ -428,6 +463,7 @@ func runJailProbe(cfg *Config) *Result {
 	for _, p := range out.Problems {
 		res.problem(Problem{Kind: "oracle", Stream: "jailprobe", Case: "jailprobe", Msg: p})
 	}
+	jpNocapProbe(res)
 	if res.Evaluations == 0 {
 		res.SetupError = "jailprobe: no probe could run: " + strings.Join(out.Skipped, "; ")
 	}
